@@ -1,6 +1,6 @@
 (* C17 — property theorems.  Only statements, [exact lemma] and Print Assumptions. *)
 From Coq Require Import ZArith List Sorted.
-From FV Require Import C17.Model C17.Proofs C17.Closure.
+From FV Require Import C17.Model C17.Proofs C17.Closure C17.Idempotent.
 Import ListNotations.
 Open Scope Z_scope.
 
@@ -112,6 +112,37 @@ Theorem c17_subset_all_identity : forall F gids unis retain, NoDup (map fst (f_c
   /\ (0 < f_n F -> num_output retain (kept_glyphs F gids unis) = f_n F).
 Proof. exact subset_all_identity_l. Qed.
 
+(* no junk: the retained set is inside every component-closed set that contains the closure roots
+   (.notdef, requested ids, glyphs of retained characters, UVS glyphs, COLR reach); the roots are retained.
+   With c17_closure_component_closed: kept = the least component-closed set containing the roots. *)
+Theorem c17_closure_minimal : forall F gids unis (S : Z -> Prop),
+  (forall g cs h c, S g -> glyph_at F g = GC cs h -> In c cs -> S c) ->
+  (forall r, In r (closure_roots F gids unis) -> S r) ->
+  forall x, In x (kept_glyphs F gids unis) -> S x.
+Proof. exact closure_minimal_l. Qed.
+Theorem c17_closure_roots_kept : forall F gids unis r,
+  In r (closure_roots F gids unis) -> In r (kept_glyphs F gids unis).
+Proof. exact closure_roots_kept. Qed.
+
+(* subsetting the subset again with the same request (same characters, requested ids renumbered): every
+   glyph is kept and the renumbering is the identity - rank renumbering, fonts without COLR/UVS closure,
+   provided neither run truncated its component closure (c17_closure_component_closed) and the emptied
+   .notdef is not a composite.  With c17_hmtx_preserved / c17_glyph_record_preserved / c17_cmap_exact
+   applied to the second run, every modelled observation of the subset is unchanged. *)
+Theorem c17_subset_idempotent : forall F gids unis notdef gl long' lsbs' cm,
+  let K := kept_glyphs F gids unis in
+  let F' := subset_afont K gl long' lsbs' cm in
+  let K' := kept_glyphs F' (renumber_request K gids) unis in
+  f_colr F = None -> f_uvs F = [] ->
+  NoDup (map fst (f_cmap F)) -> NoDup (map fst cm) -> 0 < f_n F ->
+  glyf_subset F false notdef K = Some gl ->
+  cmap_subset false K (unicode_list F gids unis) = Some cm ->
+  (notdef = true \/ forall cs h, glyph_at F 0 <> GC cs h) ->
+  (forall g cs h c, In g K -> glyph_at F g = GC cs h -> In c cs -> In c K) ->
+  (forall i cs h c, In i K' -> glyph_at F' i = GC cs h -> In c cs -> In c K') ->
+  K' = zrange (f_n F') /\ forall i, 0 <= i < f_n F' -> glyph_map false K' i = Some i.
+Proof. exact subset_idempotent_l. Qed.
+
 Print Assumptions c17_closure_contains_requested.
 Print Assumptions c17_closure_component_closed.
 Print Assumptions c17_closure_component_closed_partial.
@@ -123,3 +154,6 @@ Print Assumptions c17_cmap_exact.
 Print Assumptions c17_glyph_record_preserved.
 Print Assumptions c17_composite_components_renamed.
 Print Assumptions c17_subset_all_identity.
+Print Assumptions c17_closure_minimal.
+Print Assumptions c17_closure_roots_kept.
+Print Assumptions c17_subset_idempotent.
